@@ -115,6 +115,8 @@ def main():
     rows = []
     for d in sorted(glob.glob(os.path.join(VERIF, "seeded", "*", ""))):
         name = os.path.basename(d.rstrip("/"))
+        if not os.path.exists(d + "result_quick.json"):
+            continue                      # imported, not yet evaluated with the current checks
         m = json.load(open(d + "meta.json"))
         now = json.load(open(d + "result_quick.json")) if os.path.exists(d + "result_quick.json") else {}
         first = json.load(open(d + "result_first.json")) if os.path.exists(d + "result_first.json") else None
@@ -128,10 +130,13 @@ def main():
         rows.append(f"| {name} | {m['what'][:170].replace('|', '/')} | {m['needs'][:150].replace('|', '/')} | {det} | {fv} |")
     total = len(rows)
     own = sum(1 for r in rows if r.split(" | ")[3] not in ("MISSED",) and r.split(" | ")[3].split(",")[0] == r.split(" | ")[0][2:5])
-    outside = sum(1 for n in NOTES.values() if n.startswith("NOT detected - outside"))
+    names = {r.split(" | ")[0][2:] for r in rows}
+    outside = sum(1 for k, n in NOTES.items() if k in names and n.startswith("NOT detected - outside"))
     other = total - own - outside
     firsts = {}
     for d in sorted(glob.glob(os.path.join(VERIF, "seeded", "*", ""))):
+        if not os.path.exists(d + "result_quick.json"):
+            continue
         name = os.path.basename(d.rstrip("/"))
         rnd = ROUNDS.index(name[-1]) // 2 + 1
         f = json.load(open(d + "result_first.json")) if os.path.exists(d + "result_first.json") else None
